@@ -421,3 +421,17 @@ func (s *Sched) CallsInFlight() int {
 	defer s.mu.Unlock()
 	return s.inFlight
 }
+
+// ShutdownActive reports whether some thread is inside ShutDownProject (between shutdown_begin and shutdown_end).
+func (s *Sched) ShutdownActive() bool {
+	s.mu.Lock()
+	defer s.mu.Unlock()
+	return len(s.sdThread) > 0
+}
+
+// ParkAlso adds a label to the parking set.
+func (s *Sched) ParkAlso(label string) {
+	s.mu.Lock()
+	s.parkSet[label] = true
+	s.mu.Unlock()
+}
